@@ -1,0 +1,153 @@
+//go:build verif
+
+// Contracts for the EVM watcher (property C10). Comment-only file read by /verif/engine
+// (govc); it declares nothing and is compiled only with -tags=verif.
+//
+// The watcher keeps its logic in the goroutine literals of (*Watcher).Run; `closure [go]#n`
+// blocks put the n-th `go func() {...}()` literal of Run under contract. The variables a
+// literal captures from Run are arbitrary values constrained only by its requires clauses.
+// Run's own body (dialling, subscriptions) is not verified.
+package ethereum
+
+// ---------------------------------------------------------------- assumed contracts of the RPC connector
+//
+// Connector is an interface over a dialled JSON-RPC connection; what the node answers is
+// arbitrary apart from the shape go-ethereum's client guarantees:
+//   - ethclient.TransactionReceipt returns ethereum.NotFound, never (nil, nil);
+//   - a receipt carries a block number;
+//   - a log of a non-anonymous event has at least one topic (the Wormhole core contract
+//     declares no anonymous events) - assumed for logs of any address;
+//   - abigen's ParseLogMessagePublished copies the log it parsed into ev.Raw.
+//@ func (c Connector) TransactionReceipt(ctx context.Context, txHash common.Hash) (r *types.Receipt, err error)
+//@   assume-contract
+//@   counts receipt
+//@   ensures err == nil ==> r != nil
+//@   ensures r != nil ==> allocated(r) && r.BlockNumber != nil && allocated(r.BlockNumber)
+//@   ensures r != nil ==> forall i in 0..len(r.Logs) :: r.Logs[i] == nil || (allocated(r.Logs[i]) && len(r.Logs[i].Topics) >= 1)
+//@   modifies fresh types.Receipt.*, fresh types.Log.*, fresh lib:big.Int.v
+
+//@ func (c Connector) TimeOfBlockByHash(ctx context.Context, hash common.Hash) (t uint64, err error)
+//@   assume-contract
+
+//@ func (c Connector) ParseLogMessagePublished(log types.Log) (ev *abi.AbiLogMessagePublished, err error)
+//@   assume-contract
+//@   ensures err == nil ==> ev != nil && allocated(ev) && ev.Raw.TxHash == log.TxHash && ev.Raw.BlockHash == log.BlockHash && ev.Raw.BlockNumber == log.BlockNumber
+//@   modifies fresh abi.AbiLogMessagePublished.*
+
+// the head as the node reports it now; every call is one head read
+//@ func (b *BlockPollConnector) getBlock(ctx context.Context, logger *zap.Logger, number *big.Int, safe bool) (r *NewBlock, err error)
+//@   assume-contract
+//@   counts headread
+//@   ensures err == nil ==> r != nil && allocated(r) && r.Number != nil && allocated(r.Number)
+//@   modifies fresh NewBlock.*, fresh lib:big.Int.v
+
+//@ func (b *BlockPollConnector) EnablePoller()
+//@   assume-contract
+//@ func (b *BlockPollConnector) DisablePoller()
+//@   assume-contract
+
+// ---------------------------------------------------------------- re-observed transactions: contract, topic, status
+
+// Every message returned comes from a log of the configured contract whose first topic is the
+// message-published topic, in a receipt with success status; the block number returned is the
+// receipt's. Every such log that parses yields exactly one message, every other log none.
+//@ func MessageEventsForTransaction(ctx context.Context, ethConn Connector, contract eth_common.Address, chainId vaa.ChainID, tx eth_common.Hash) (n uint64, msgs []*common.MessagePublication, err error)
+//@   props C10
+//@   requires ethConn != nil
+//@   ensures [messages-wellformed] err == nil ==> forall k in 0..len(msgs) :: msgs[k] != nil && allocated(msgs[k]) && msgs[k].EmitterChain == chainId
+//@   ensures [error-returns-nothing] err != nil ==> len(msgs) == 0
+//@   modifies fresh common.MessagePublication.*, fresh types.Receipt.*, fresh types.Log.*, fresh lib:big.Int.v, fresh abi.AbiLogMessagePublished.*
+//@   nopanic
+//@   replay ethereum_bytx.go.tmpl
+//@   at [return receipt.BlockNumber.Uint64(), msgs, nil]: assert [success-status-only] receipt != nil && receipt.Status == 1
+//@   at [msgs = append(msgs, message)]: assert [core-contract-topic-status] l != nil && l.Address == contract && len(l.Topics) >= 1 && l.Topics[0] == LogMessagePublishedTopic && receipt.Status == 1
+//@   at [msgs = append(msgs, message)]: assert [message-of-that-log] message.TxHash == l.TxHash && message.ConsistencyLevel == ev.ConsistencyLevel && message.Sequence == ev.Sequence && message.EmitterChain == chainId && message.Nonce == ev.Nonce
+//@   loop [range receipt.Logs]:
+//@     invariant [self] receipt != nil && allocated(receipt) && receipt.Status == 1 && receipt.BlockNumber != nil && ethConn != nil
+//@     invariant [logs-shape] forall i in 0..len(receipt.Logs) :: receipt.Logs[i] == nil || (allocated(receipt.Logs[i]) && len(receipt.Logs[i].Topics) >= 1)
+//@     invariant [messages-wellformed] forall k in 0..len(msgs) :: msgs[k] != nil && allocated(msgs[k]) && msgs[k].EmitterChain == chainId
+//@     iter-ensures [foreign-log-skipped] l == nil || l.Address != contract || l.Topics[0] != LogMessagePublishedTopic ==> len(msgs) == old(len(msgs))
+//@     iter-ensures [at-most-one-per-log] len(msgs) == old(len(msgs)) || len(msgs) == old(len(msgs)) + 1
+
+// ---------------------------------------------------------------- the watcher
+
+// required confirmations of a message under a head event: the message's consistency level
+// when the watcher honours it and the head is not a safe/finalized one, else zero
+//@ pure conf(w *Watcher, safe bool, m *common.MessagePublication) = (w.waitForConfirmations && !safe ? m.ConsistencyLevel : 0)
+// a pending entry: allocated, with its message, keyed by the message's transaction; heights
+// and the abandonment window are far from the uint64 boundary (environment: block numbers)
+//@ pred wfPending(w *Watcher) = w != nil && allocated(w) && w.pending != nil && w.ethConn != nil && allocated(w.ethConn) && w.ethConn.Connector != nil && w.maxWaitConfirmations <= 4294967296
+//@   | && (forall k in dom(w.pending) :: w.pending[k] != nil && allocated(w.pending[k]) && w.pending[k].message != nil && allocated(w.pending[k].message)
+//@   |      && w.pending[k].height <= 4611686018427387904 && w.pending[k].message.TxHash == k.TxHash)
+
+//@ func (w *Watcher) getBlockNumber(logger *zap.Logger, ctx context.Context) (n uint64, err error)
+//@   props C10
+//@   requires w != nil && w.ethConn != nil
+//@   ensures [one-head-read] ghostCount("headread") == old(ghostCount("headread")) + 1
+//@   modifies fresh NewBlock.*, fresh lib:big.Int.v
+//@   nopanic
+
+//@ func (w *Watcher) Run(ctx context.Context) (err error)
+//@   props C10
+//@   assume-contract
+//@   modifies *
+//
+// go#2: re-observation requests. One head read, made before the receipt is requested; a
+// message is handed on only if the receipt's block number plus the required confirmations
+// is at most that head, and never on an unknown (zero) head.
+//@   closure [go]#2:
+//@     requires w != nil && allocated(w) && w.ethConn != nil && allocated(w.ethConn) && w.ethConn.Connector != nil
+//@     replay ethereum_reobserve.go.tmpl
+//@     at [MessageEventsForTransaction(timeout, w.ethConn, w.contract, w.chainID, tx)]: assert [head-read-before-receipt] ghostCount("headread") == atHead(ghostCount("headread")) + 1
+//@     at [range msgs]: assert [head-not-reread] ghostCount("headread") == atHead(ghostCount("headread")) + 1
+//@     at [w.msgChan <- msg]: assert [depth-reached] blockNumberU != 0 && blockNumber + (w.waitForConfirmations ? msg.ConsistencyLevel : 0) <= blockNumberU
+//@     at [w.msgChan <- msg]: assert [head-not-reread-in-loop] ghostCount("headread") == atHead(ghostCount("headread"))
+//@     at [w.msgChan <- msg]: assert [from-that-transaction] msg.EmitterChain == w.chainID
+//@     loop [for]:
+//@       invariant [self] w != nil && allocated(w) && w.ethConn != nil && allocated(w.ethConn) && w.ethConn.Connector != nil
+//@     loop [range msgs]:
+//@       invariant [self] w != nil && allocated(w) && w.ethConn != nil
+//@       invariant [messages-wellformed] forall k in 0..len(msgs) :: msgs[k] != nil && allocated(msgs[k]) && msgs[k].EmitterChain == w.chainID
+//@       iter-ensures [forward-iff-deep-enough] (nsent(w.msgChan) == old(nsent(w.msgChan)) + 1) == (blockNumberU != 0 && blockNumber + (w.waitForConfirmations ? msg.ConsistencyLevel : 0) <= blockNumberU)
+//@       iter-ensures [at-most-once] nsent(w.msgChan) == old(nsent(w.msgChan)) || (nsent(w.msgChan) == old(nsent(w.msgChan)) + 1 && lastsent(w.msgChan) == msg)
+//@   end-closure
+//
+// go#3: log intake. A delivered log becomes a pending entry keyed by (tx, block hash,
+// emitter, sequence) that records the log's block number, block hash and the message's
+// consistency level - nothing is forwarded from here.
+//@   closure [go]#3:
+//@     requires wfPending(w)
+//@     at [ev := <-messageC]: assume-env ev.Raw.BlockNumber <= 4611686018427387904
+//@     at [w.ethConn.EnablePoller()]: assert [intake-faithful] indom(w.pending, key) && w.pending[key].height == ev.Raw.BlockNumber && key.BlockHash == ev.Raw.BlockHash && key.TxHash == ev.Raw.TxHash
+//@       | && w.pending[key].message.TxHash == ev.Raw.TxHash && w.pending[key].message.ConsistencyLevel == ev.ConsistencyLevel && w.pending[key].message.EmitterChain == w.chainID && w.pending[key].message.Sequence == ev.Sequence
+//@     at [w.ethConn.EnablePoller()]: assert [intake-forwards-nothing] nsent(w.msgChan) == atHead(nsent(w.msgChan))
+//@     at [w.ethConn.EnablePoller()]: assert [other-entries-kept] mapUnchangedExceptSinceHead(w.pending, key)
+//@     loop [for]:
+//@       invariant [self] wfPending(w)
+//@   end-closure
+//
+// go#4: the per-head scan of the pending set.
+//@   closure [go]#4:
+//@     requires wfPending(w)
+//@     replay ethereum_headscan.go.tmpl
+//@     loop [for]:
+//@       invariant [self] wfPending(w)
+//@     loop [range w.pending]:
+//@       invariant [self] wfPending(w) && ev != nil && ev.Number != nil
+//@       invariant [watcher-fields] w.maxWaitConfirmations == atEntry(w.maxWaitConfirmations)
+//@       iter-ensures [forward-only-if] nsent(w.msgChan) != old(nsent(w.msgChan)) ==>
+//@         | nsent(w.msgChan) == old(nsent(w.msgChan)) + 1 && lastsent(w.msgChan) == old(pLock.message) && !indom(w.pending, key)
+//@         | && old(pLock.height) + conf(w, ev.Safe, old(pLock.message)) <= blockNumberU
+//@         | && ghostCount("receipt") == old(ghostCount("receipt")) + 1 && err == nil && tx != nil && tx.Status == 1 && tx.BlockHash == key.BlockHash
+//@       iter-ensures [no-lookup-before-depth] old(pLock.height) + conf(w, ev.Safe, old(pLock.message)) > blockNumberU ==>
+//@         | ghostCount("receipt") == old(ghostCount("receipt")) && indom(w.pending, key) && nsent(w.msgChan) == old(nsent(w.msgChan))
+//@       iter-ensures [lookup-when-depth-reached] old(pLock.height) + conf(w, ev.Safe, old(pLock.message)) <= blockNumberU ==> ghostCount("receipt") == old(ghostCount("receipt")) + 1
+//@       iter-ensures [forward-if] ghostCount("receipt") == old(ghostCount("receipt")) + 1 && err == nil && tx != nil && tx.Status == 1 && tx.BlockHash == key.BlockHash ==> nsent(w.msgChan) == old(nsent(w.msgChan)) + 1
+//@       iter-ensures [dropped-only-if] !indom(w.pending, key) && nsent(w.msgChan) == old(nsent(w.msgChan)) ==>
+//@         | ghostCount("receipt") == old(ghostCount("receipt")) + 1 && (tx == nil || err != nil || tx.Status != 1 || tx.BlockHash != key.BlockHash)
+//@       iter-ensures [orphaned-failed-remined-dropped] ghostCount("receipt") == old(ghostCount("receipt")) + 1 && (tx == nil || (err == nil && (tx.Status != 1 || tx.BlockHash != key.BlockHash))) ==>
+//@         | !indom(w.pending, key) && nsent(w.msgChan) == old(nsent(w.msgChan))
+//@       iter-ensures [transient-error-kept-within-window] ghostCount("receipt") == old(ghostCount("receipt")) + 1 && tx != nil && tx.Status == 1 && err != nil && err != rpc.ErrNoResult && errstr(err) != "not found"
+//@         | && old(pLock.height) + conf(w, ev.Safe, old(pLock.message)) + w.maxWaitConfirmations > blockNumberU ==> indom(w.pending, key) && nsent(w.msgChan) == old(nsent(w.msgChan))
+//@       iter-ensures [other-entries-kept] mapUnchangedExcept(w.pending, key)
+//@   end-closure
